@@ -329,8 +329,20 @@ def _child_command(cmd, output=None, **kw):
                 env={k: env.get(k) for k in ("JADE_RUNTIME_OUTPUT", "JADE_SUBMISSION_GROUP")})
         vc.yield_point()
         return vc.hook_rc.get(vc.hook_commands[cmd], 0)
-    if parts[:1] == ["jade"]:     # report commands: recorded no-ops
+    if parts[:1] == ["jade"]:     # report commands: recorded; show-events does what the real command does first
         vc.emit("report_cmd", cmd=parts[1:3])
+        if parts[1:2] == ["show-events"] and "-o" in parts:
+            # `jade show-events` constructs EventsSummary(output), whose first construction consolidates every
+            # *events.log written so far into events/<name>.json (and never again)
+            from jade.events import EventsSummary
+            try:
+                EventsSummary(parts[parts.index("-o") + 1])
+                vc.emit("events_consolidated")
+            except Exception as e:   # noqa
+                vc.emit("events_consolidated", error=type(e).__name__)
+        if isinstance(output, dict):
+            output["stdout"] = ""
+            output["stderr"] = ""
         return 0
     raise RuntimeError("unexpected command: " + cmd)
 
@@ -478,7 +490,7 @@ def install():
     _wrap_method(Cluster, "_update_job_status", after=after_update)
 
     def after_mark_complete(args, kw, res, exc):
-        VC.emit("mark_complete", ok=exc is None, error=type(exc).__name__ if exc else None)
+        VC.emit("mark_complete", ok=exc is None, error=type(exc).__name__ if exc else None, active=VC.active_ids())
     _wrap_method(Cluster, "_mark_complete", after=after_mark_complete)
 
     def after_mark_canceled(args, kw, res, exc):
@@ -544,6 +556,40 @@ def install():
     def after_is_complete(args, kw, res, exc):
         VC.emit("check_complete", result=bool(res) if exc is None else None)
     _wrap_method(hs.HpcSubmitter, "_is_complete", after=after_is_complete)
+
+    # the scan of a finished job's output directory can fail (a dangling link, a file that vanishes): fault site
+    _orig_dir_size = acc.get_directory_size_bytes
+
+    def dir_size(directory, *a, **kw):
+        vc = VC
+        name = os.path.basename(str(directory))
+        if vc is not None and cur_actor() is not None and vc.faults.get("scan_error") == name and ("scan_error", name) not in vc.fired:
+            vc.fired.append(("scan_error", name))
+            vc.emit("scan_error", job=name)
+            raise FileNotFoundError(2, "No such file or directory", os.path.join(str(directory), "dangling-link"))
+        return _orig_dir_size(directory, *a, **kw)
+    acc.get_directory_size_bytes = dir_size
+
+    # reading a node result file is a step other processes can interleave with, whether or not a lock is held
+    def after_get_results(args, kw, res, exc):
+        self = args[0]
+        if exc is None and self._filename.name.startswith("results_batch"):
+            VC.emit("site", site="read:" + self._filename.name, n=0)
+            VC.yield_point()
+    _wrap_method(ResultsAggregator, "_get_results", after=after_get_results)
+
+    # _submit_batches has no yield point: a loop that never ends would hang the whole check.  Turn it into an error.
+    def before_submit_batches(self, queue, submission_group, blocked_jobs, submitted_jobs):
+        cur_actor().make_batch_calls = 0
+
+    def before_make_batch(self, available_jobs, *a, **kw):
+        a_ = cur_actor()
+        a_.make_batch_calls = getattr(a_, "make_batch_calls", 0) + 1
+        if a_.make_batch_calls > 10 * (len(available_jobs) + 5):
+            VC.emit("livelock", where="_submit_batches")
+            raise RuntimeError("livelock: HpcSubmitter._submit_batches keeps calling _make_batch without consuming a job")
+    _wrap_method(hs.HpcSubmitter, "_submit_batches", before=before_submit_batches)
+    _wrap_method(hs.HpcSubmitter, "_make_batch", before=before_make_batch)
 
     def before_run(self):
         VC.emit("round_begin", canceled=bool(self._cluster.is_canceled()), ids=list(self._cluster.iter_hpc_job_ids()),
@@ -651,7 +697,7 @@ class VirtualCluster:
         self.pending_lock_timeout = set()
         self.hook_commands = {"hook-setup": "setup", "hook-teardown": "teardown", "hook-node-setup": "node_setup",
                               "hook-node-teardown": "node_teardown"}
-        self.hook_rc = {}
+        self.hook_rc = dict((self.sc.get("hooks_rc") or {}))      # which -> exit code of the hook command (default 0)
         self.pipeline_next = None
         self.fault_counter = {}
         self.fired = []
@@ -920,13 +966,24 @@ class VirtualCluster:
             if same and self.rng.random() < 0.85:
                 return same[0]
         if s == "gap_hunter" and self.trace:
-            # a submitter round (on the login node or as a node's try-submit-jobs child) has just taken or released
-            # the lock of a node result file: let the other nodes run / their jobs end in that window
+            # a submitter round (on the login node or as a node's try-submit-jobs child) has just read a node result
+            # file or taken / released its lock: hold that process back for a while and let the other nodes run and
+            # their jobs end in that window
             last = self.trace[-1]
-            if last.get("k") in ("release", "acquire") and str(last.get("lock", "")).startswith("results_batch") and last.get("pk") != "node":
-                nodes = [c for c in runs if c[1].stack[0].kind == "node" and c[1].proc.pid != last.get("p")] + [c for c in ch if c[0].startswith("finish:")]
-                if nodes and self.rng.random() < 0.8:
+            if ((last.get("k") in ("release", "acquire") and str(last.get("lock", "")).startswith("results_batch"))
+                    or (last.get("k") == "site" and str(last.get("site", "")).startswith("read:results_batch"))) and last.get("pk") != "node":
+                self.gap_hold = [last.get("p"), 14]
+            hold = getattr(self, "gap_hold", None)
+            if hold and hold[1] > 0:
+                hold[1] -= 1
+                nodes = [c for c in runs if c[1].stack[0].kind == "node" and c[1].proc.pid != hold[0]] + [c for c in ch if c[0].startswith("finish:")]
+                if nodes and self.rng.random() < 0.85:
                     return self.rng.choice(nodes)
+            else:
+                # outside such a window jobs end late, so that some are still running when the next window opens
+                other = [c for c in ch if not c[0].startswith("finish:")]
+                if other and self.rng.random() < 0.8:
+                    return self.rng.choice(other)
         if s == "collect_gap":
             # between a round's result collection and its next step, let the nodes run on
             for ev in reversed(self.trace[-40:]):
